@@ -420,10 +420,12 @@ func runC09(c *Ctx) {
 		// provider records handed to the budgeted appender are bounded
 		for _, s := range p.AllCalls("dht.appendFittingProviderPeers") {
 			call := s.Call()
-			lit, isLit := eng.Unparen(call.Args[1]).(*ast.FuncLit)
-			if !c.Check(K(s.F.Name, "iterator literal"), call.Pos(), isLit, "the provider iterator is a local literal", "not a literal") {
+			// a literal, or the result of a function of this package that returns nothing but one literal
+			lits := iteratorLits(p, s.F, call.Args[1])
+			if !c.Check(K(s.F.Name, "iterator literal"), call.Pos(), len(lits) == 1, "the provider iterator is a literal of this package (written in place or returned by a local constructor)", "not a literal") {
 				continue
 			}
+			lit := lits[0]
 			g := p.FuncOfLit(lit)
 			ginfo := g.Info()
 			n := 0
@@ -591,10 +593,11 @@ func runC09(c *Ctx) {
 					if s, ok := eng.Unparen(idE).(*ast.SelectorExpr); ok {
 						if o := eng.ObjOf(info, s.X); o != nil {
 							for _, d := range f.AssignedFrom(o) {
-								if lo := eng.ObjOf(info, defOrNil(d)); lo != nil {
-									if def := f.LocalVarDef(lo); def != nil {
-										_, okConv = eng.IsCallTo(info, def, "dht/pb.PBPeersToPeerInfos")
-									}
+								if d == nil {
+									continue
+								}
+								if _, isConv := eng.IsCallTo(info, resolveLocal(f, d), "dht/pb.PBPeersToPeerInfos"); isConv {
+									okConv = true
 								}
 							}
 						}
@@ -659,7 +662,22 @@ func runC09(c *Ctx) {
 					continue
 				}
 				n++
-				ok, w := cf.MustPass(cf.Entry(), eng.LocSet(cf.LocOf(ret)), eng.LocSet(strips...))
+				// the helper, or the two assignments it consists of written out on the request itself
+				ok, w := true, []eng.Loc(nil)
+				for _, fld := range []string{"dht/pb.Message.CloserPeers", "dht/pb.Message.ProviderPeers"} {
+					via := append([]eng.Loc(nil), strips...)
+					for _, as := range assignsTo(f, func(l ast.Expr) bool {
+						sel, isSel := eng.Unparen(l).(*ast.SelectorExpr)
+						return isSel && eng.IsField(info, l, fld) && eng.IsObj(info, sel.X, pmes)
+					}) {
+						if len(as.Lhs) == 1 && len(as.Rhs) == 1 && isNil(info, as.Rhs[0]) {
+							via = append(via, cf.LocOf(as))
+						}
+					}
+					if o, ww := cf.MustPass(cf.Entry(), eng.LocSet(cf.LocOf(ret)), eng.LocSet(via...)); !o {
+						ok, w = false, ww
+					}
+				}
 				c.CheckW(K(f.Name, "echo#"+itoa(i)+" stripped"), ret.Pos(), ok, "a handler that echoes the request strips its peer records first", "a return of the request message is reachable without stripPeerRecords", cf.DescribePath(w))
 			}
 		}
